@@ -105,7 +105,7 @@ func rulePutIsolation(c *Ctx, r *R) {
 		if call, ok := in.(*ssa.Call); ok {
 			name := ""
 			if cal := staticCallee(&call.Call); cal != nil {
-				name = cal.Name()
+				name = fname(cal)
 			}
 			if (name == "insertOne" || name == "removeOne") && len(call.Call.Args) > 0 {
 				if _, arr, ok := nodeArray(call.Call.Args[0]); ok && arr == "values" {
@@ -160,7 +160,7 @@ func rulePutIsolation(c *Ctx, r *R) {
 				if cal := staticCallee(&x.Call); cal != nil {
 					if cal.Pkg == tp && cal.Blocks != nil {
 						if sub := readOnly(cal, seen); sub != "" {
-							bad = "calls " + cal.Name() + ": " + sub
+							bad = "calls " + fname(cal) + ": " + sub
 						}
 					}
 				} else if _, isB := x.Call.Value.(*ssa.Builtin); !isB && !strings.HasSuffix(path(x.Call.Value), ".compare") {
@@ -327,7 +327,7 @@ func ruleTreeBounds(c *Ctx, r *R) {
 		plainIter := map[int64]bool{}
 		panics := map[*ssa.Parameter]bool{}
 		isSeek := func(cal *ssa.Function) bool {
-			return cal != nil && cal.Signature.Recv() != nil && isNamedType(cal.Signature.Recv().Type(), treeRel, "cursor") && strings.HasPrefix(cal.Name(), "Seek")
+			return cal != nil && cal.Signature.Recv() != nil && isNamedType(cal.Signature.Recv().Type(), treeRel, "cursor") && strings.HasPrefix(fname(cal), "Seek")
 		}
 		for _, d := range di {
 			inner := false
@@ -345,14 +345,14 @@ func ruleTreeBounds(c *Ctx, r *R) {
 				if cal == nil {
 					continue
 				}
-				if cal.Signature.Recv() != nil && isNamedType(cal.Signature.Recv().Type(), treeRel, "cursor") && strings.HasPrefix(cal.Name(), "Seek") {
+				if cal.Signature.Recv() != nil && isNamedType(cal.Signature.Recv().Type(), treeRel, "cursor") && strings.HasPrefix(fname(cal), "Seek") {
 					if k, ok := kindOf(d, nearP); ok {
 						seeks[k] = append(seeks[k], d)
 					} else {
-						r.violated(base+"|seek-outside-kind-test:"+cal.Name(), x.Pos(), "a cursor seek in "+sp.fn+" that is not selected by the kind of its "+nearP.Name()+" bound")
+						r.violated(base+"|seek-outside-kind-test:"+fname(cal), x.Pos(), "a cursor seek in "+sp.fn+" that is not selected by the kind of its "+nearP.Name()+" bound")
 					}
 				}
-				if cal.Name() == "While" && cal.Pkg != nil && strings.HasSuffix(cal.Pkg.Pkg.Path(), "/iterator") || (cal.Pkg == nil && strings.HasPrefix(cal.Name(), "While")) {
+				if fname(cal) == "While" && cal.Pkg != nil && strings.HasSuffix(cal.Pkg.Pkg.Path(), "/iterator") || (cal.Pkg == nil && strings.HasPrefix(fname(cal), "While")) {
 					if k, ok := kindOf(d, farP); ok {
 						whiles[k] = append(whiles[k], d)
 					} else {
@@ -362,7 +362,7 @@ func ruleTreeBounds(c *Ctx, r *R) {
 			case *ssa.Return:
 				if len(x.Results) == 1 && len(d.calls) == 0 || (len(x.Results) == 1) {
 					if call, ok := resolveVal(x.Results[0]).(*ssa.Call); ok {
-						if cal := staticCallee(&call.Call); cal != nil && cal.Name() == sp.iter {
+						if cal := staticCallee(&call.Call); cal != nil && fname(cal) == sp.iter {
 							if k, ok := kindOf(d, farP); ok {
 								plainIter[k] = true
 							}
@@ -394,8 +394,8 @@ func ruleTreeBounds(c *Ctx, r *R) {
 			}
 			call := ss[0].in.(*ssa.Call)
 			cal := staticCallee(&call.Call)
-			good := cal.Name() == want
-			why := "calls " + cal.Name()
+			good := fname(cal) == want
+			why := "calls " + fname(cal)
 			if good && kn != "boundUnbounded" {
 				if len(call.Call.Args) != 2 {
 					good, why = false, "wrong arity"
@@ -502,7 +502,7 @@ func ruleTreeDelegation(c *Ctx, r *R) {
 				good := false
 				instrs(fn, func(b *ssa.BasicBlock, i int, in ssa.Instruction) {
 					if call, ok := in.(*ssa.Call); ok {
-						if cal := staticCallee(&call.Call); cal != nil && cal.Name() == "Range" && len(call.Call.Args) == 3 {
+						if cal := staticCallee(&call.Call); cal != nil && fname(cal) == "Range" && len(call.Call.Args) == 3 {
 							u := 0
 							for _, a := range call.Call.Args[1:] {
 								if ac, ok := a.(*ssa.Call); ok {
@@ -528,8 +528,8 @@ func ruleTreeDelegation(c *Ctx, r *R) {
 			if m, ok := rename[n]; ok {
 				want = m
 			}
-			good := cal.Name() == want
-			why := "calls btree." + cal.Name() + " instead of btree." + want
+			good := fname(cal) == want
+			why := "calls btree." + fname(cal) + " instead of btree." + want
 			// the wrapper's parameters, in order, as a prefix of the callee's arguments
 			ps := fn.Params[1:]
 			args := call.Call.Args[1:]
